@@ -342,29 +342,65 @@ pub fn hash_order(container: &str) -> (Vec<(String, String)>, u64, u64) {
             }
         }
         "TrainConfig.n_cars_by_type" => {
-            let items = vec![("Manifest_Loaded".to_string(), 7u32), ("Manifest_Empty".to_string(), 5u32), ("Third".to_string(), 3u32)];
+            // four car types with non-round masses and counts chosen so that plain f64 summation of mass x count is
+            // order-sensitive (checked below): an accumulation that follows the map's iteration order would show
+            let specs: Vec<(&str, f64, f64, u32)> = vec![("Alpha", 47527.592, 72801.787, 7), ("Beta", 30363.44, 59576.249, 11), ("Gamma", 32292.845, 27101.932, 9), ("Delta", 23254.751, 30886.54, 17)];
+            {
+                let terms: Vec<f64> = specs.iter().map(|s| (s.1 + s.2) * s.3 as f64).collect();
+                let mut sums: BTreeSet<u64> = BTreeSet::new();
+                let idx = [0usize, 1, 2, 3];
+                for a in idx {
+                    for b in idx {
+                        for c in idx {
+                            for d in idx {
+                                if a != b && a != c && a != d && b != c && b != d && c != d {
+                                    sums.insert((((terms[a] + terms[b]) + terms[c]) + terms[d]).to_bits());
+                                }
+                            }
+                        }
+                    }
+                }
+                if sums.len() < 2 {
+                    f.push(("masses-not-order-sensitive@harness".into(), "the chosen car masses sum to the same f64 in every order".into()));
+                }
+            }
+            let items: Vec<(String, u32)> = specs.iter().map(|s| (s.0.to_string(), s.3)).collect();
             let (maps, want) = realise_orders(&items);
             orders = maps.len() as u64;
             if maps.len() != want {
                 f.push(("not-all-iteration-orders-realised@harness".into(), format!("{} of {}", maps.len(), want)));
             }
             let mut outs: BTreeSet<String> = BTreeSet::new();
+            let mut params: BTreeSet<String> = BTreeSet::new();
             for m in maps {
-                let mut third = manifest(true, true);
-                third.car_type = "Third".into();
-                third.mass_freight = 33_333.3 * uc::KG;
-                third.cd_area = 2.71828 * uc::M2;
-                let rvs = vec![manifest(true, true), manifest(false, true), third];
+                let rvs: Vec<_> = specs
+                    .iter()
+                    .map(|s| {
+                        let mut rv = manifest(true, true);
+                        rv.car_type = s.0.to_string();
+                        rv.mass_static_base = s.1 * uc::KG;
+                        rv.mass_freight = s.2 * uc::KG;
+                        rv.cd_area = (1.0 + s.1 * 1e-5) * uc::M2;
+                        rv.davis_b = 3.1e-5 * uc::SPM;
+                        rv
+                    })
+                    .collect();
                 let tc = altrios_core::train::TrainConfig::new(rvs, m, TrainType::Freight, None, None, None).unwrap();
+                evals += 1;
+                params.insert(serde_json::to_string(&tc.make_train_params().unwrap()).unwrap());
                 let b = altrios_core::train::TrainSimBuilder::new("t".into(), tc, consist(2, Some(1)), None, None, Some(InitTrainState::new(Some(0.0 * uc::S), None, Some(2.0 * uc::MPS))));
                 let net = build_topology(&line_topology(&[3000.0], 20.0), false, SetStyle::Single);
                 let mut sim = b.make_set_speed_train_sim(&net, &[lidx(1)], SpeedTrace::new(vec![0.0, 1.0, 2.0, 3.0], vec![2.0, 2.2, 2.4, 2.5], None), Some(1)).unwrap();
                 let _ = sim.walk();
                 evals += 1;
+                // the map itself is part of the serialized sim only through the builder, not the sim: compare the sim
                 outs.insert(serde_json::to_string(&sim).unwrap());
             }
+            if params.len() != 1 {
+                f.push(("output-depends-on-hash-iteration-order@TrainConfig.n_cars_by_type:make_train_params".into(), format!("{} distinct TrainParams over the iteration orders of equal inputs", params.len())));
+            }
             if outs.len() != 1 {
-                f.push(("output-depends-on-hash-iteration-order@TrainConfig.n_cars_by_type".into(), format!("{} distinct outputs over the iteration orders", outs.len())));
+                f.push(("output-depends-on-hash-iteration-order@TrainConfig.n_cars_by_type".into(), format!("{} distinct simulation outputs over the iteration orders of equal inputs", outs.len())));
             }
         }
         _ => {
@@ -562,7 +598,7 @@ impl Prop for C18 {
         "C18"
     }
     fn rule(&self, tier: Tier) -> String {
-        format!("Part 1 (decides): the only concurrent seam, LocomotiveSimulationVec::walk(true) = rayon par_iter_mut().try_for_each(walk), is explored through rayon's contract (each element visited at most once; after an error no new element starts; started ones finish): one scheduler thread per element sharing one flag, element bodies = the REAL LocomotiveSimulation::walk. shuttle check_dfs (unbounded DFS, every interleaving) for EVERY batch of N <= 3 elements over {} element kinds (ok/failing at step 1/failing later x conv/BEL); for N = 4 (every batch over 4 kinds{}) and three N = 5 batches the same contract is enumerated explicitly over its 2N events ((2N)!/2^N interleavings); the two engines must produce the same outcome set for every N <= 3 batch. states = schedules. Binding: the real walk(true) runs inside rayon pools of 1..16 threads ({} repetitions each) and every observed outcome must be a member of the explored outcome set; walk(false) must equal the element-wise serial reference. Part 2 (decides): for Link.speed_sets, TrainConfig.n_cars_by_type and LocationMap with 3 keys, map instances are created until all 3! iteration orders are realised and the consuming pipeline must give identical outputs for each. Part 3 (sampled tripwire, not a verdict): {} scenarios of est-time construction, dispatch and speed-limited simulation run twice in fresh threads and compared byte for byte. distinct_nontrivial = distinct (part, batch size, number of outcomes / orders) signatures.", kinds_alphabet(tier).len(), if tier.is_thorough() { "" } else { ", every 4th in the quick tier" }, if tier.is_thorough() { 20 } else { 6 }, if tier.is_thorough() { 72 } else { 18 })
+        format!("Part 1 (decides): the only concurrent seam, LocomotiveSimulationVec::walk(true) = rayon par_iter_mut().try_for_each(walk), is explored through rayon's contract (each element visited at most once; after an error no new element starts; started ones finish): one scheduler thread per element sharing one flag, element bodies = the REAL LocomotiveSimulation::walk. shuttle check_dfs (unbounded DFS, every interleaving) for EVERY batch of N <= 3 elements over {} element kinds (ok/failing at step 1/failing later x conv/BEL); for N = 4 (every batch over 4 kinds{}) and three N = 5 batches the same contract is enumerated explicitly over its 2N events ((2N)!/2^N interleavings); the two engines must produce the same outcome set for every N <= 3 batch. states = schedules. Binding: the real walk(true) runs inside rayon pools of 1..16 threads ({} repetitions each) and every observed outcome must be a member of the explored outcome set; walk(false) must equal the element-wise serial reference. Part 2 (decides): for Link.speed_sets and LocationMap with 3 keys and TrainConfig.n_cars_by_type with 4 keys (car masses chosen so that f64 summation is order-sensitive), map instances are created until all 3! / 4! iteration orders are realised and the consuming pipeline must give identical outputs for each. Part 3 (sampled tripwire, not a verdict): {} scenarios of est-time construction, dispatch and speed-limited simulation run twice in fresh threads and compared byte for byte. distinct_nontrivial = distinct (part, batch size, number of outcomes / orders) signatures.", kinds_alphabet(tier).len(), if tier.is_thorough() { "" } else { ", every 4th in the quick tier" }, if tier.is_thorough() { 20 } else { 6 }, if tier.is_thorough() { 72 } else { 18 })
     }
     fn assumptions(&self) -> Vec<String> {
         vec![
